@@ -64,8 +64,15 @@ def _case(draw):
     mode = draw(st.sampled_from(["single", "single", "history"]))
     if mode == "single":
         return {"mode": "single", "full": full, "site": site, "req": draw(_request())}
-    return {"mode": "history", "full": full, "site": site,
-            "reqs": draw(st.lists(_request(), min_size=2, max_size=10))}
+    reqs = draw(st.lists(_request(), min_size=2, max_size=10))
+    # concentrate most steps on one or two targets (so that caches written by one protocol are read by another)
+    focus = draw(st.lists(st.sampled_from([0, 5, 10, 1, 2, 3, 4, 6, 7]), min_size=1, max_size=2))
+    for rq in reqs:
+        if draw(st.integers(0, 9)) < 7:
+            rq["target"] = draw(st.sampled_from(focus))
+            rq["mut"] = draw(st.sampled_from(["none", "none", "none", "slash"]))
+            rq["raw"] = None
+    return {"mode": "history", "full": full, "site": site, "reqs": reqs}
 
 
 def strategy(tier):
@@ -114,6 +121,31 @@ def _empty_ok(objs, rq):
         return True  # root listing may be empty if everything in it is hidden
     o = objs[rq["target"] % len(objs)]
     return o["kind"] == "menu" or o.get("content") == ""
+
+
+_NOTFOUND_MUTS = {"nul", "pctnul", "msg0", "msgneg", "msghuge", "msgx", "dslash", "dotdot", "missing"}
+
+
+def _expected(objs, rq):
+    """'menu' | 'doc' | 'error' | None (unknown) for a structured request, from the site description alone"""
+    if rq["raw"] is not None:
+        return None
+    root = not rq["target"] % 5
+    o = {"sel": "/", "kind": "menu", "what": "root"} if root else objs[rq["target"] % len(objs)]
+    mut = rq["mut"]
+    if mut in ("none", "slash"):
+        if mut == "slash" and "|" in o["sel"]:
+            return None
+        return o["kind"]
+    if mut in _NOTFOUND_MUTS:
+        if mut == "missing" and any(x["sel"] == o["sel"] + "-missing" for x in objs):
+            return None
+        if mut == "dslash" and root:
+            return None  # '//' -> after slash normalisation still contains '//': not found; keep unknown for '/'
+        if mut in ("msg0", "msgneg") and o["what"] in ("exec", "zip:exec"):
+            return None
+        return "error"
+    return None
 
 
 def _build_request(objs, rq):
@@ -183,7 +215,7 @@ def _disk_kind(root, selb):
     return "other"
 
 
-def _wellformed(root, req, tls, form, r, empty_ok=False):
+def _wellformed(root, req, tls, form, r, empty_ok=False, expected=None):
     """Oracle (a)+(b) on one Result. Returns list of Fail."""
     fails = []
     if r.escaped is not None:
@@ -206,6 +238,27 @@ def _wellformed(root, req, tls, form, r, empty_ok=False):
         if not (fails and r.response == b""):
             fails.append(Fail("malformed-%s:%s" % (fam, re.sub(r"[^a-zA-Z ]", "", pr.problems[0])[:40].strip().replace(" ", "-")),
                               "request %r: reply is not valid %s: %s" % (req[:80], fam, pr.problems[:2]),
+                              {"response": world.u(r.response[:300])}))
+    if expected is not None and not fails and not pr.problems and fam not in ("gdollar", "gbang"):
+        got = pr.kind
+        if fam == "gplus":
+            got = "ok" if pr.ok else "error"
+            want = "error" if expected == "error" else "ok"
+        elif fam == "head":
+            got = "ok" if pr.ok else "error"
+            want = "error" if expected == "error" else "ok"
+        elif fam == "gopher":
+            # no status line: an expected error must be exactly one error line; an expected menu must be menu syntax
+            want = expected
+            if expected == "menu":
+                got = "menu" if (pr.ok and not clients.menu_problems(r.response)) else pr.kind
+            elif expected == "doc":
+                got = "doc" if pr.ok else pr.kind
+        else:
+            want = expected
+        if got != want:
+            fails.append(Fail("wrong-outcome:%s:want-%s-got-%s" % (fam, want, got),
+                              "request %r should be answered with %s, got %s" % (req[:80], want, got),
                               {"response": world.u(r.response[:300])}))
     if fam == "gopher" and r.response == b"" and not fails and not empty_ok:
         line = req.split(b"\n", 1)[0]
@@ -245,7 +298,7 @@ def check_case(case, ctx):
             if mutated or (sel and "|" in sel):
                 ctx.nontriv()
                 ctx.sample(cls="single:" + (case["req"]["mut"] if form else "raw"))
-            return _wellformed(root, req, tls, form, r, _empty_ok(objs, case["req"]))
+            return _wellformed(root, req, tls, form, r, _empty_ok(objs, case["req"]), _expected(objs, case["req"]))
         finally:
             world.rmtree(d)
     # history
@@ -266,7 +319,7 @@ def check_case(case, ctx):
             snap = drive.snapshot_globals()
             rs = drive.serve(cfgs, req, tls=tls, realfd=full, reset=True)
             drive.restore_globals(snap)  # the history side keeps its lazily initialised tables
-            fails += _wellformed(rooth, req, tls, form, rh, _empty_ok(objs, rq))
+            fails += _wellformed(rooth, req, tls, form, rh, _empty_ok(objs, rq), _expected(objs, rq))
             a, b = _mask(rh.response), _mask(rs.response.replace(os.fsencode(roots), os.fsencode(rooth)))
             if listed:
                 nt = True
